@@ -82,6 +82,17 @@ Theorem builder_systems_roundtrip :
     cs_from_dict G (cs_to_dict G (mkCs G (run_bops G ops) t)) = Some (mkCs G (run_bops G ops) t).
 Proof. exact builder_systems_roundtrip_thm. Qed.
 
+(* remove_flow is part of the builder histories above (round 4): it keeps both graph guards, so
+   builder_systems_roundtrip and builder_encoding_order_blind hold for every history of
+   add_compartment / add_flow / remove_flow.  What it does to the graph: the node order and every
+   other adjacency stay as they are. *)
+Theorem remove_flow_keeps_guards :
+  forall G, engine_ok G -> forall (u v : node G) (g : graph G),
+    graph_wf G g = true -> out_first G g = true ->
+    graph_wf G (remove_edge G u v g) = true /\ out_first G (remove_edge G u v g) = true /\
+    g_nodes G (remove_edge G u v g) = g_nodes G g.
+Proof. exact remove_flow_keeps_guards_thm. Qed.
+
 Theorem statements_roundtrip :
   forall G, engine_ok G -> forall l : list (stmt G),
     forallb (stmt_ok G) l = true -> stmts_from_dict G (stmts_to_dict G l) = Some l.
